@@ -336,6 +336,86 @@ def predictFlight (c : Cfg) (s : Nat → Nat) (im : Impl) (views : Array (Option
                       tags := p.tags ++ [if plan.packetSize > 0 then (if fill > 0 then "pad:exact" else "pad:exact-nofill") else if out.datagramLen > out.packetLen then "pad:udp" else "pad:none"] }
     return p
 
+
+/-! ### the caller's spec after a dial (round 4) -/
+
+/-- ghost: the op line's own description of the spec.  `after=` is the driver's description of the spec value as it
+    reads AFTER the dial ('&' for ' '), `slack=` the bytes behind the windows its slices are (prefix / packet-number
+    lengths / plans / explicit token), which the driver filled with 0xc5 -/
+def specAfterFails (ws iw : List String) : List (String × String × String) :=
+  let after := kvOf iw "after"
+  let slack := kvOf iw "slack"
+  let changed := (after.splitOn "&").filterMap fun item =>
+    match item.splitOn "=" with
+    | k :: rest => let v := "=".intercalate rest; if kvOf ws k == v then none else some s!"{k}: {kvOf ws k} -> {v}"
+    | [] => none
+  let dirty := slack ≠ "-" && !((slack.splitOn "/").all fun part => (hexBytes part).all (· == 0xc5))
+  (if after.isEmpty ∨ !changed.isEmpty then
+     [("spec_untouched_by_dial", "-", s!"the caller's spec reads differently after the dial: {changed}")] else []) ++
+  (if slack.isEmpty ∨ dirty then
+     [("spec_untouched_by_dial", "-", s!"bytes behind the spec's slices (token prefix/pn lengths/plans/explicit token) were written: {slack}")] else [])
+
+def fmtBytes (b : List Nat) : String := String.ofList (b.flatMap fun x => [Nat.digitChar (x / 16), Nat.digitChar (x % 16)])
+
+/-- `overlap`: two dials with ONE spec value on a dead path, B started while A still has Initial packets to send
+    (PTO retransmissions).  Every Initial datagram of both connections is reported with the connection ID and token
+    it shows on the wire (no protection covers them).  The number and timing of the packets is outside the model; the
+    token of every one of them is predicted (`tokenFor` at the witnessed read position of its own dial). -/
+def stepOverlap (ws : List String) (c : Cfg) (impl : String) : StepOut :=
+  let parts := impl.splitOn " | "
+  let iw := words (parts.headD "")
+  let spec := c.spec
+  let s := mkStream c.script
+  let offsS := kvOf iw "tokoffs"
+  let offs : List Nat := if offsS == "-" || offsS.isEmpty then [] else (offsS.splitOn ".").map natOf
+  let pk : List (String × Nat × String × List Nat) := (parts.drop 1).filterMap fun d => match d.splitOn ":" with
+    | [who, tm, dcid, tok] => some (who, natOf tm, dcid, if tok == "-" then [] else hexBytes tok)
+    | _ => none
+  let tailLen := match spec.token with | .synth pre len => tokenLength pre len - pre.length | _ => 0
+  let needTok := tailLen > 0
+  let rejected := dialRejects spec
+  let expOf (k : Nat) : Option (List Nat) := if needTok then (offs[k]?).map (tokenFor spec s ·) else some (tokenFor spec s 0)
+  let conn (who : String) := pk.filter (·.1 == who)
+  let judge (who : String) (k : Nat) : List String × List (String × String × String) :=
+    let ps := conn who
+    match ps with
+    | [] => ([], [])
+    | p0 :: _ =>
+      let exp := expOf k
+      let mism := (match exp with
+        | none => [s!"tokoffs:{who} sent Initial packets but no token read position was reported"]
+        | some e => (ps.filter (·.2.2.2 ≠ e)).map fun p => s!"{who}@{p.2.1}ms.token:exp={fmtBytes e} got={fmtBytes p.2.2.2}")
+      let fails :=
+        (ps.filter (·.2.2.2 ≠ p0.2.2.2)).map (fun p => ("token_stable_within_connection", "-",
+          s!"connection {who}: Initial packet at {p.2.1} ms carries token {fmtBytes p.2.2.2}, its first Initial carried {fmtBytes p0.2.2.2}")) ++
+        (match exp with
+         | some e => (ps.filter (·.2.2.2 ≠ e)).map (fun p => ("token_as_specified", "-",
+             s!"connection {who}: Initial packet at {p.2.1} ms carries token {fmtBytes p.2.2.2}, specified {fmtBytes e}"))
+         | none => []) ++
+        (if spec.dcidLen > 0 then (ps.filter (fun p => p.2.2.1.length ≠ 2 * spec.dcidLen)).map (fun p => ("header_as_specified", "-",
+             s!"connection {who}: Initial packet at {p.2.1} ms has destination connection ID {p.2.2.1}, specified length {spec.dcidLen}")) else [])
+      (mism, fails)
+  let (mA, fA) := judge "A" 0
+  let (mB, fB) := judge "B" 1
+  -- fresh per dial: where the random source supplied different tails, the two connections' tokens differ
+  let fresh := match (conn "A").head?, (conn "B").head?, offs with
+    | some a, some b, [oa, ob] =>
+      if tailLen ≥ 4 ∧ takeStream s oa tailLen ≠ takeStream s ob tailLen ∧ a.2.2.2 == b.2.2.2 then
+        [("token_fresh_per_dial", "-", s!"connections A and B carry the same token {fmtBytes a.2.2.2}")] else []
+    | _, _, _ => []
+  let rej := if rejected ∧ !pk.isEmpty then [s!"n:exp=0 got={pk.length} (dial must be rejected before anything is sent)"] else []
+  let after := specAfterFails ws iw
+  let mism := mA ++ mB ++ rej ++ after.map (fun f => s!"spec:{f.2.2}")
+  let firstB := ((conn "B").head?.map (·.2.1)).getD 1000000
+  let late := (conn "A").any (fun p => p.2.1 > firstB)
+  { model := if mism.isEmpty then impl else "MISMATCH " ++ " ".intercalate mism,
+    fails := fA ++ fB ++ fresh ++ after,
+    tags := ["op:overlap", if late then "ov:A-sends-after-B-dialled" else "ov:no-late-packet", s!"ov:nA:{min (conn "A").length 6}",
+             s!"ov:gap:{kvOf ws "gap"}", if kvOf ws "shs" == "1" then "spec:shared" else "spec:fresh",
+             if kvOf ws "slk" == "1" then "spec:slack" else "spec:tight", builderTag spec.builder,
+             s!"err:{(((kvOf iw "err").splitOn "/").headD "").take 7}"] ++
+            (match spec.token with | .none => ["tok:none"] | .explicit _ => ["tok:explicit"] | .synth _ _ => ["tok:synth"]) }
+
 /-! ### the step -/
 
 structure St where
@@ -343,14 +423,14 @@ structure St where
       source supplied for them -/
   tails : List (List Nat × List Nat) := []
 
-def fmtBytes (b : List Nat) : String := String.ofList (b.flatMap fun x => [Nat.digitChar (x / 16), Nat.digitChar (x % 16)])
-
 def step (st : St) (op impl : String) : St × StepOut :=
   let ws := words op
-  if ws.headD "" ≠ "dial" then (st, { model := "bad-op" }) else
+  if ws.headD "" ≠ "dial" ∧ ws.headD "" ≠ "overlap" then (st, { model := "bad-op" }) else
   match parseCfg ws with
   | none => (st, { model := "bad-op" })
   | some c =>
+  if ws.headD "" == "overlap" then
+    (if impl.startsWith "err=" then (st, stepOverlap ws c impl) else (st, { model := "unparsable-result", tags := ["impl:unparsable"] })) else
   match parseImpl impl with
   | none => (st, { model := "unparsable-result", tags := ["impl:unparsable"] })
   | some im => Id.run do
@@ -380,9 +460,12 @@ def step (st : St) (op impl : String) : St × StepOut :=
     -- the token store's read position must be reported exactly when a random tail is drawn
     let needTok := match spec.token with | .synth pre len => decide (tokenLength pre len > pre.length) | _ => false
     if pred.err == "" ∧ needTok ≠ im.tokOff.isSome then mism := mism ++ [s!"tokoff:exp-present={needTok}"]
+    let iw := words ((impl.splitOn " | ").headD "")
+    let after := specAfterFails ws iw
+    mism := mism ++ after.map (fun f => s!"spec:{f.2.2}")
     let model := if mism.isEmpty then impl else "MISMATCH " ++ " ".intercalate mism
     -- ---------------- monitors (ghost: the spec of the op + the scripted stream only)
-    let mut fails : List (String × String × String) := []
+    let mut fails : List (String × String × String) := after
     let mut st := st
     -- monitors judge what the implementation emitted; when the model expects the dial to be refused for its packet
     -- number but datagrams went out, they are judged all the same (the flight cannot be opened)
@@ -471,7 +554,8 @@ def step (st : St) (op impl : String) : St × StepOut :=
           fails := fails ++ [("decryptable", cls, s!"datagram {i}: server did not process Initial pn {fullPN} (received {im.srv})")]
         if d.status == "ok" then largest := max largest fullPN
     -- ---------------- tags
-    let tags := [builderTag spec.builder, if c.live then "mode:live" else "mode:dead", if kvOf ws "shr" == "1" then "conf:shared" else "conf:fresh", s!"n:{min im.n 5}", s!"err:{(im.err.splitOn ":").take 2 |> ":".intercalate}"] ++
+    let tags := [builderTag spec.builder, if c.live then "mode:live" else "mode:dead", if kvOf ws "shr" == "1" then "conf:shared" else "conf:fresh",
+      if kvOf ws "shs" == "1" then "spec:shared" else "spec:fresh", if kvOf ws "slk" == "1" then "spec:slack" else "spec:tight", s!"n:{min im.n 5}", s!"err:{(im.err.splitOn ":").take 2 |> ":".intercalate}"] ++
       (match spec.token with | .none => ["tok:none"] | .explicit _ => ["tok:explicit"] | .synth _ _ => ["tok:synth"]) ++
       [if spec.dcidLen = 0 then "dcid:default" else if spec.dcidLen < 8 then "dcid:short" else "dcid:fixed",
        if spec.scidLen = 0 then "scid:empty" else "scid:fixed",
